@@ -67,6 +67,21 @@ def _work(chunk):
         rec = {"idx": idx, "src": src, "fails": [], "paths": 0, "outcome": None}
         status, res = pipeline(src)
         rec["outcome"] = status
+        # correspondence: the Lean model of the whole round trip (front end → restructuring → code generation)
+        try:
+            ids0 = pysem.Ids()
+            _, toks0 = pysem.abs_function(ast.parse(src).body[0], ids0)
+            mrep = drv.run(["RT " + " ".join(toks0)])[0]
+            if status == "ok":
+                p2, nt = pysem.abs_function(ast.parse(ast.unparse(res)).body[0], ids0)
+                real = "ok " + " ".join(nt[1 + len(p2):])
+                rec["rt_model_same"] = mrep == real
+            elif status == "refused":
+                rec["rt_model_same"] = mrep.startswith("abort NotImplementedError")
+            else:
+                rec["rt_model_same"] = mrep.startswith("abort " + res.split("@")[0])
+        except Exception:  # noqa: BLE001
+            rec["rt_model_same"] = None
         if status == "refused":
             out.append(rec)
             continue
@@ -183,6 +198,15 @@ def run(ctx):
                            "what": f"round trip: {key[0]} ({key[1]} {key[2]}) on {len(items_)} generated functions",
                            "payload": {"source": r["src"], "failures": r["fails"][:4], "count": len(items_)}})
     npaths = sum(r["paths"] for r in recs)
+    rtmm = [r for r in recs if r.get("rt_model_same") is False]
+    broken = []
+    if rtmm:
+        r = min(rtmm, key=lambda r: len(r["src"]))
+        path = common.write_replay("C07", {"property": "C07", "kind": "correspondence-broken",
+                                           "correspondence": "Scfg.Model.roundtrip (Ast2Cfg ∘ Pipeline ∘ Cfg2Ast) vs AST2SCFG → restructure → SCFG2AST",
+                                           "source": r["src"], "mismatching_programs": len(rtmm)})
+        broken.append({"signature": {"kind": "roundtrip-model"}, "replay": path, "nfi": True,
+                       "what": f"round-trip model differs from the implementation on {len(rtmm)} programs"})
     cov = {"programs": len(progs), "disagreements_checked": sum(len(v) for v in by.values()),
            "samples": [{"source": progs[len(pygen.HAND) + 2]}],
            "evaluations": npaths, "distinct_nontrivial": len(set(progs)),
@@ -191,8 +215,9 @@ def run(ctx):
            "outcomes": dict(Counter(r["outcome"] for r in recs)),
            "lean_verdicts": dict(Counter(r.get("lean", "not-run") for r in recs)),
            "cpython_paths": npaths,
+           "roundtrip_model_compared": sum(1 for r in recs if r.get("rt_model_same") is not None), "roundtrip_model_mismatches": len(rtmm),
            "failures_by_kind": {" | ".join(k): len(v) for k, v in by.items()}}
-    return {"level": LEVEL, "coverage": cov, "violations": violations,
+    return {"level": LEVEL, "coverage": cov, "violations": violations, "broken": broken,
             "assumptions": ["as C08; additionally: atoms of the user program never read names in the reserved __scfg_ namespace (hygiene, C10)"]}
 
 
